@@ -461,7 +461,9 @@ fn run_grid(g: &Grid, respond: bool) -> Result<Result<(), String>, mc::PanicInfo
     let (src, dst): (std::net::IpAddr, std::net::IpAddr) = if g.v6 { ("fd00::a00:1".parse().unwrap(), "fd00::a09:909".parse().unwrap()) } else { ("10.0.0.1".parse().unwrap(), "10.9.9.9".parse().unwrap()) };
     let (read_timeout, min_round, max_round, grace, connect, rounds) = match g.profile {
         0 => (Duration::from_millis(10), Duration::from_millis(25), Duration::from_millis(40), Duration::from_millis(5), Duration::from_millis(1000), 2usize),
-        _ => (Duration::from_millis(1), Duration::from_millis(50), Duration::from_millis(50), Duration::from_millis(1), Duration::from_secs(10), 12usize),
+        1 => (Duration::from_millis(1), Duration::from_millis(50), Duration::from_millis(50), Duration::from_millis(1), Duration::from_secs(10), 12usize),
+        // long run: every round sends all max_ttl probes; 12 rounds of 254 cross every sequence wrap
+        _ => (Duration::from_micros(10), Duration::from_micros(10 * (u64::from(g.max_ttl) + 3)), Duration::from_micros(10 * (u64::from(g.max_ttl) + 3)), Duration::from_micros(1), Duration::from_micros(500), 12usize),
     };
     let built = Builder::new(dst)
         .source_addr(Some(src))
@@ -547,6 +549,25 @@ fn part_b(tier: Tier, findings: &Mutex<Findings>) -> serde_json::Value {
             }
         }
     }
+    // long runs across the sequence wrap-around(s): every protocol x strategy x port direction x
+    // family x privilege x initial sequence, 254 probes per round, 12 rounds, silent network
+    let grid_points = grid.len();
+    for protocol in [Protocol::Icmp, Protocol::Udp, Protocol::Tcp] {
+        for strategy in [MultipathStrategy::Classic, MultipathStrategy::Paris, MultipathStrategy::Dublin] {
+            for p in ports {
+                for v6 in [false, true] {
+                    for unprivileged in [false, true] {
+                        for initial_sequence in [0u16, 33434, 63000, 64000, 64511] {
+                            for ext in [false, true] {
+                                grid.push(Grid { protocol, strategy, ports: p, v6, first_ttl: 1, max_ttl: 254, max_inflight: 255, initial_sequence, packet_size: if v6 { 96 } else { 84 }, unprivileged, ext, profile: 2 });
+                            }
+                        }
+                    }
+                }
+            }
+        }
+    }
+    let long_runs = grid.len() - grid_points;
     let stats = Mutex::new((0u64, 0u64, 0u64, 0u64));
     let chunk = 256;
     let nchunks = grid.len().div_ceil(chunk);
@@ -617,7 +638,7 @@ fn part_b(tier: Tier, findings: &Mutex<Findings>) -> serde_json::Value {
         }
     });
     let s = stats.into_inner().unwrap();
-    json!({"builder_grid_points": grid.len(), "runs": s.0 + s.1, "accepted_runs": s.0, "rejected_up_front": s.1, "ran_to_completion": s.2, "ended_with_error_value": s.3})
+    json!({"builder_grid_points": grid_points, "long_runs_across_sequence_wrap": long_runs, "runs": s.0 + s.1, "accepted_runs": s.0, "rejected_up_front": s.1, "ran_to_completion": s.2, "ended_with_error_value": s.3})
 }
 
 pub fn run(args: &CheckArgs) -> i32 {
@@ -632,7 +653,7 @@ pub fn run(args: &CheckArgs) -> i32 {
     rep.set("distinct_nontrivial", json!(a["accepted_and_equal"].as_u64().unwrap_or(0) + b["accepted_runs"].as_u64().unwrap_or(0)));
     rep.set("precedence", a);
     rep.set("accepted_implies_runnable", b);
-    rep.set("rule", json!("(a) 116 layered options (39 scalars, 5 flags, 34 theme colours, 38 key bindings), two valid non-default values each: EVERY pair of options x EVERY pair of placements {absent, file, CLI, both (file v1/CLI v2 and swapped)} (flags: file {absent,true,false} x CLI {absent,present}) in two contexts and, in the richer context, three backgrounds for the remaining options (all absent / all in the file / all on the CLI), through the real clap parser + TOML deserialiser + build_config; oracle: the effective TrippyConfig (Debug of every field) equals the one obtained by giving each option's effective value (CLI, else file, else default) on the command line only - or both are rejected; every option is first shown to have an effect; + single-option sweep: every (file value, CLI value) pair over each scalar option's value domain (all enumeration members; numeric options {{0,1,7,28,64,254,255,256,1024,1025,33434,64511,64512,65535}}; durations {{0ms..1000s}}), incl. invalid values and sentinels such as 0 = auto (a file the TOML deserialiser rejects outright is not a configuration file and is skipped). (b) Builder grid protocol x strategy x port direction x family x first_ttl {0,1,2,254,255} x max_ttl {0,1,3,254,255} x max_inflight {0,1,24,255} x initial_sequence {0,33434,64511,64512,65535} x packet_size {0,27,28,47,48,84,1024,1025} x privilege (thorough: x extension mode x timing profile; quick pairs sizes with sequences): every configuration Builder::build accepts is run over the simulated network with and without responses; a panic is a violation, an Err value is not. distinct_nontrivial = accepted comparisons + accepted runs"));
+    rep.set("rule", json!("(a) 116 layered options (39 scalars, 5 flags, 34 theme colours, 38 key bindings), two valid non-default values each: EVERY pair of options x EVERY pair of placements {absent, file, CLI, both (file v1/CLI v2 and swapped)} (flags: file {absent,true,false} x CLI {absent,present}) in two contexts and, in the richer context, three backgrounds for the remaining options (all absent / all in the file / all on the CLI), through the real clap parser + TOML deserialiser + build_config; oracle: the effective TrippyConfig (Debug of every field) equals the one obtained by giving each option's effective value (CLI, else file, else default) on the command line only - or both are rejected; every option is first shown to have an effect; + single-option sweep: every (file value, CLI value) pair over each scalar option's value domain (all enumeration members; numeric options {{0,1,7,28,64,254,255,256,1024,1025,33434,64511,64512,65535}}; durations {{0ms..1000s}}), incl. invalid values and sentinels such as 0 = auto (a file the TOML deserialiser rejects outright is not a configuration file and is skipped). (b) Builder grid protocol x strategy x port direction x family x first_ttl {0,1,2,254,255} x max_ttl {0,1,3,254,255} x max_inflight {0,1,24,255} x initial_sequence {0,33434,64511,64512,65535} x packet_size {0,27,28,47,48,84,1024,1025} x privilege (thorough: x extension mode x timing profile; quick pairs sizes with sequences): every configuration Builder::build accepts is run over the simulated network with and without responses; + long runs (254 probes per round, 12 rounds, initial sequence {0,33434,63000,64000,64511}) across every sequence wrap-around for every protocol x strategy x port direction x family x privilege x extension mode; a panic is a violation, an Err value is not. distinct_nontrivial = accepted comparisons + accepted runs"));
     rep.sample(json!({"part": "a", "pair": ["first-ttl", "tui-geoip-mode"], "placements": "file=v1 & CLI=v2 ; file only", "background": "all others in the file"}));
     rep.sample(json!({"part": "b", "grid": "Udp/Dublin/FixedBoth/v6 first_ttl=1 max_ttl=3 max_inflight=24 seq=64511 size=48"}));
     rep.assumptions = vec!["the CLI->builder mapping of app.rs::start_tracer is not exercised (it spawns real sockets); the builder grid covers its image".into(), vcore::c01::ASSUME.into()];
